@@ -132,9 +132,11 @@ Load == /\ disk.has /\ last.op = "save"
         /\ acc' = disk.acc /\ tip' = disk.tip /\ invalid' = disk.invalid
         /\ LET t == disk.tip
            IN /\ floorB' = Max2(disk.floorB, Height(t) - P)
-              \* side blocks forking deeper than MaxDepth below the tip need not survive
+              \* side blocks forking deeper below the tip than new forks are accepted (MaxDepth) or than
+              \* Load retains (P) need not survive
               /\ unsure' = disk.unsure \cup
-                     {x \in disk.acc : x \notin Anc(t) /\ Height(t) - Height(Fork(t, x)) > MaxDepth}
+                     {x \in disk.acc : x \notin Anc(t) /\
+                                         Height(t) - Height(Fork(t, x)) > (IF MaxDepth < P THEN MaxDepth ELSE P)}
         /\ subs' = <<>>
         /\ last' = [op |-> "load", b |-> 0, verdict |-> "ok", delta |-> <<>>]
         /\ UNCHANGED <<parent, work, ever, disk>>
